@@ -206,7 +206,7 @@ type Comp struct {
 	Dev        bool `json:"-"` // lives in dev.templ (rewritten in the dev-mode part of C14)
 }
 
-var staticNames = []string{"Empty", "Text", "TextExpr", "MultiLineExpr", "EscText", "Attrs", "ClassAttr", "StyleAttr", "Href",
+var staticNames = []string{"Empty", "Text", "TextExpr", "MultiLineExpr", "EscText", "Attrs", "ClassAttr", "StyleAttr", "StyleForms", "Href",
 	"OnClick", "ScriptCall", "ScriptElem", "RawElems", "Nav", "Layout", "Page", "IfElse", "ForLoop", "Switch", "Wrap", "UseWrap",
 	"NestedFail", "ManyTiny", "Flushy", "Joiny", "Oncey", "Rawy", "Funcy", "GoHTML", "ToGoHTML", "JSONy", "SubBox", "UseMethod",
 	"Deep", "LongStatic", "LongMixed", "LongBoundary", "DevA", "DevB",
